@@ -116,6 +116,10 @@ Fixpoint pp (slot : nat) (e : expr) {struct e} : list pt :=
                                             flat_map (fun c => PK "if" :: pp slot_comp_if c) ifs
                                         end) gs) ++ [PK "}"]
     | Subscript v s => pp slot_Subscript_value v ++ PK "[" :: pp slot_Subscript_slice s ++ [PK "]"]
+    | Slice a b c =>
+        (match a with Some x => pp slot_Slice_lower x | None => [] end) ++ PK ":" ::
+        (match b with Some x => pp slot_Slice_upper x | None => [] end) ++ PK ":" ::
+        (match c with Some x => pp slot_Slice_step x | None => [] end)
     | _ => []
     end in
   pparen (Nat.ltb slot (node_prec e)) body.
@@ -181,6 +185,10 @@ Definition pbody (e : expr) : list pt :=
   | ListComp x gs => PK "[" :: pp slot_ListComp_elt x ++ gtoks gs ++ [PK "]"]
   | SetComp x gs => PK "{" :: pp slot_SetComp_elt x ++ gtoks gs ++ [PK "}"]
   | Subscript v s => pp slot_Subscript_value v ++ PK "[" :: pp slot_Subscript_slice s ++ [PK "]"]
+  | Slice a b c =>
+      (match a with Some x => pp slot_Slice_lower x | None => [] end) ++ PK ":" ::
+      (match b with Some x => pp slot_Slice_upper x | None => [] end) ++ PK ":" ::
+      (match c with Some x => pp slot_Slice_step x | None => [] end)
   | _ => []
   end.
 Lemma pp_unfold slot e : pp slot e = pparen (Nat.ltb slot (node_prec e)) (pbody e).
@@ -209,7 +217,14 @@ Fixpoint core (e : expr) {struct e} : bool :=
   | NamedExpr _ v => ec v
   | Attribute v _ => ec v
   | Call f args kws => ec f && forallb core args && forallb (fun kw => core (snd kw) && negb (is_starred (snd kw))) kws
-  | Subscript v s => ec v && ec s && match s with ETuple _ | Slice _ _ _ => false | _ => true end
+  | Subscript v s =>
+      ec v && match s with
+              | Slice a b c =>
+                  (match a with Some x => ec x | None => true end) &&
+                  (match b with Some x => ec x | None => true end) &&
+                  (match c with Some x => ec x | None => true end)
+              | _ => ec s
+              end
   | Starred v => ec v
   | EList l | ETuple l => forallb core l
   | ESet l => Nat.leb 1 (length l) && forallb core l
@@ -247,7 +262,10 @@ Inductive mode :=
 | MGens (acc : list comprehension)                             (* comprehension clauses: `for t in i if c ...` *)
 | MIfs (t i : expr) (ifs : list expr) (acc : list comprehension)
 | MDict (ks : list (option expr)) (vs : list expr)               (* a dict display before an item *)
-| MDSep (ks : list (option expr)) (vs : list expr).              (* ... after an item *)
+| MDSep (ks : list (option expr)) (vs : list expr)               (* ... after an item *)
+| MIndex                                                         (* the index of a subscription: an expression or a slice *)
+| MSliceUp (lower : option expr)                                 (* after the first colon *)
+| MSliceStep (lower upper : option expr).                        (* after the second colon *)
 
 Definition lambda0 (b : expr) : expr := Lambda [] [] None [] [] None [] b.
 
@@ -310,6 +328,9 @@ Definition finish (close : string) (acc : list expr) (comma : bool) : option exp
 
 (* the carrier of a call's argument lists *)
 Definition args_carrier (acc : list expr) (kws : list (option ident * expr)) : expr := Call (Name "") (rev acc) (rev kws).
+
+(* where a part of a slice ends *)
+Definition slice_stop (ts : list pt) : bool := hd_is ":" ts || hd_is "]" ts || hd_is "," ts.
 
 Fixpoint pc (f : nat) (m : mode) (ts : list pt) {struct f} : option (expr * list pt) :=
   match f with
@@ -425,6 +446,28 @@ Fixpoint pc (f : nat) (m : mode) (ts : list pt) {struct f} : option (expr * list
               else None
           | _ => None
           end
+    | MIndex =>
+        if hd_is ":" ts then pc f' (MSliceUp None) (tl ts)
+        else
+          match pc f' (MExpr slot_Subscript_slice) ts with
+          | Some (e, r) => if hd_is ":" r then pc f' (MSliceUp (Some e)) (tl r) else Some (e, r)
+          | None => None
+          end
+    | MSliceUp lower =>
+        if slice_stop ts then
+          (if hd_is ":" ts then pc f' (MSliceStep lower None) (tl ts) else Some (Slice lower None None, ts))
+        else
+          match pc f' (MExpr slot_Slice_upper) ts with
+          | Some (u, r) => if hd_is ":" r then pc f' (MSliceStep lower (Some u)) (tl r) else Some (Slice lower (Some u) None, r)
+          | None => None
+          end
+    | MSliceStep lower upper =>
+        if slice_stop ts then Some (Slice lower upper None, ts)
+        else
+          match pc f' (MExpr slot_Slice_step) ts with
+          | Some (st, r) => Some (Slice lower upper (Some st), r)
+          | None => None
+          end
     | MDSep ks vs =>
         match ts with
         | PK s :: r =>
@@ -470,7 +513,7 @@ Fixpoint pc (f : nat) (m : mode) (ts : list pt) {struct f} : option (expr * list
             | _ => None
             end
         | KLBr r =>
-            match pc f' (MExpr slot_Subscript_slice) r with
+            match pc f' MIndex r with
             | Some (s, PK s' :: r') => if String.eqb s' "]" then pc f' (MLoop n (Subscript lft s) CNone) r' else None
             | _ => None
             end
